@@ -16,11 +16,14 @@ def finite_decimal(fr):
 
 
 def make_rows(rng, tps, n, on_grid_frac=0.5):
-    """pipelines with 1-3 rows each; arrival only on the first row"""
+    """pipelines with 1-3 rows each; arrival only on the first row; a quarter of the pipelines arrive at the same instant as their predecessor
+    (generated traces emit several pipelines per event)"""
     rows, arrivals = [], []
     t = F(0)
     for i in range(n):
-        if rng.random() < on_grid_frac:
+        if i and rng.random() < 0.25:
+            pass                                   # same instant as the previous pipeline
+        elif rng.random() < on_grid_frac:
             t = F(int(t * tps) + rng.randint(0, 40), tps)
             if not finite_decimal(t):
                 t = F(int(t) + rng.randint(0, 3))
@@ -147,6 +150,8 @@ def check_jitter(ctx, drv, rng, td):
     if [by_in[i][0] for i, _ in m] != [p for p, _ in new]:
         return viol(ctx, "jitter-stable", "pipelines with equal new arrival are not kept in their input order", case)
     ctx.sit("jitter_delta_zero" if delta == 0 else "jitter_delta_pos")
+    if len(set(arrivals)) < len(arrivals):
+        ctx.sit("jitter_equal_arrivals_in_input" + ("_delta_zero" if delta == 0 else ""))
     ctx.coverage["distinct_nontrivial"] += 1
 
 
